@@ -262,6 +262,57 @@ def native_hostile_rows():
     return dict(count=n, failures=failures, samples=[])
 
 
+def native_cid_paths():
+    """concrete: a CID given as a path is the CID stored there *now*: rows are judged by the declaration on disk at
+    the time of the call, and two validations naming the same CID path do not share check state"""
+    import io
+    import os
+    import shutil
+    import tempfile
+    from cutplace import validio, errors
+    failures = []
+    n = 0
+    d = tempfile.mkdtemp(prefix="c04cid")
+    try:
+        cid_path = os.path.join(d, "cid.csv")
+        v1 = "d,format,delimited\nf,a,,,1\nf,b,,X,...1\nc,u,IsUnique,a\n"
+        v2 = "d,format,delimited\nf,a,,,1\nf,b,,X,...1\nf,c,,,2\n"
+        data2 = "x,y\nz,\n"
+        data3 = "x,y,zz\nz,,q\n"
+        for version, text, expected in ((1, v1, {data2: [True, True], data3: [False, False]}),
+                                        (2, v2, {data2: [False, False], data3: [True, False]}),
+                                        (3, v1, {data2: [True, True], data3: [False, False]})):
+            with open(cid_path, "w") as f:
+                f.write(text)
+            for data, exp in expected.items():
+                n += 1
+                try:
+                    got = [not isinstance(r, errors.DataError) for r in validio.rows(cid_path, io.StringIO(data, newline=""), on_error="yield")]
+                except Exception as e:  # noqa
+                    got = "%s: %s" % (type(e).__name__, e)
+                if got != exp:
+                    failures.append(dict(key="row-verdict", what="CID file (version %d: %r) with data %r: accepted %r, expected %r" % (
+                        version, text, data, got, exp), args=dict(version=version)))
+        # two readers naming the same CID path, consumed in turns: each judges its own data set
+        n += 1
+        with open(cid_path, "w") as f:
+            f.write(v1)
+        ra = validio.rows(cid_path, io.StringIO("x,\ny,\n", newline=""), on_error="yield")
+        rb = validio.rows(cid_path, io.StringIO("x,\ny,\n", newline=""), on_error="yield")
+        got = []
+        try:
+            for a, b in zip(ra, rb):
+                got.append((not isinstance(a, errors.DataError), not isinstance(b, errors.DataError)))
+        except Exception as e:  # noqa
+            got = "%s: %s" % (type(e).__name__, e)
+        if got != [(True, True), (True, True)]:
+            failures.append(dict(key="row-verdict", what="two readers on one CID path with equal data, consumed in turns: accepted %r" % (got,),
+                                 args={}))
+    finally:
+        shutil.rmtree(d, ignore_errors=True)
+    return dict(count=n, failures=failures, samples=[])
+
+
 def build(tier, seed):
     rnd = random.Random(seed)
     queries = []
@@ -285,7 +336,9 @@ def build(tier, seed):
         from props.c05 import native_key_collisions
         res = native_key_collisions("row-verdict")
         more = native_hostile_rows()
-        return dict(count=res["count"] + more["count"], failures=res["failures"] + more["failures"], samples=[])
+        paths = native_cid_paths()
+        return dict(count=res["count"] + more["count"] + paths["count"], failures=res["failures"] + more["failures"] + paths["failures"],
+                    samples=[])
 
     return dict(queries=queries, native=native,
                 assumptions=["rows reach validio exactly as the container reader yields them (S-ROWS)",
